@@ -113,6 +113,15 @@ def runBatch {α} (D : Dom α) (expired : Bool) (levels : List (List (Upd α))) 
   let r2 := pass2 D expired levels.reverse.flatten r1.1
   (r2.1, r1.2 ++ r2.2)
 
+/-- a history of LeveledUpdateBatch calls (expired flag, updaters) on the same executor: the
+    ResourceCache survives from one call to the next. -/
+def runHistory {α} (D : Dom α) : List (Bool × List (List (Upd α))) → St α → St α × List (Write α)
+  | [], s => (s, [])
+  | b :: bs, s =>
+    let r := runBatch D b.1 b.2 s
+    let r' := runHistory D bs r.1
+    (r'.1, r.2 ++ r'.2)
+
 /-- the file system after a sequence of writes. -/
 def applyWrites {α} (f : Nat → α) : List (Write α) → Nat → α
   | [] => f
